@@ -630,3 +630,86 @@ func slowExchange(r *ev.Run) {
 		r.Nontrivial("slow-exchange")
 	})
 }
+
+// parkedWaiter: one client is parked waiting for a message code that nobody sends. Everybody else's operations complete
+// all the same; the waiter is released by a request with its code afterwards.
+func parkedWaiter(r *ev.Run) {
+	c := r.Case("parked-waiter", 0)
+	if c == nil {
+		return
+	}
+	r.Eval(1)
+	r.Guard(c, "operations beside a parked waiter", nil, func() {
+		ag := wire.New()
+		defer ag.Close()
+		sock, err := ag.Listen()
+		if err != nil {
+			r.Inconclusive(err.Error())
+			return
+		}
+		k := gen.Pool()[0]
+		ag.Keyring.Add(agent.AddedKey{PrivateKey: k.Priv, Comment: "k"})
+		sa, err := shimagent.New(shimagent.Option{Address: sock})
+		if err != nil {
+			r.Violation(c, "shim-construction-fails-without-fault", err.Error(), nil)
+			return
+		}
+		s, ok := sa.(*shimagent.Server)
+		if !ok {
+			r.Inconclusive("shimagent.New did not return *shimagent.Server")
+			return
+		}
+		released := make(chan error, 1)
+		go func() { released <- s.Wait(31) }()
+		time.Sleep(100 * time.Millisecond)
+		done := make(chan string, 1)
+		go func() {
+			if l, err := s.List(); err != nil || len(l) != 1 {
+				done <- fmt.Sprintf("list: %d identities, err=%v", len(l), err)
+				return
+			}
+			data := []byte("beside a parked waiter")
+			if sig, err := s.Sign(k.Pub, data); err != nil || k.Pub.Verify(data, sig) != nil {
+				done <- fmt.Sprintf("sign: err=%v", err)
+				return
+			}
+			tag := append([]byte{200}, []byte("beside-a-parked-waiter")...)
+			if resp, err := s.Forward(tag); err != nil || !bytes.Equal(resp, tag) {
+				done <- fmt.Sprintf("forward: err=%v", err)
+				return
+			}
+			if err := s.Lock([]byte("p")); err != nil {
+				done <- "lock: " + err.Error()
+				return
+			}
+			if err := s.Unlock([]byte("p")); err != nil {
+				done <- "unlock: " + err.Error()
+				return
+			}
+			done <- ""
+		}()
+		select {
+		case msg := <-done:
+			if msg != "" {
+				r.Violation(c, "wrong-reply:parked-waiter", msg, nil)
+				return
+			}
+		case e := <-released:
+			r.Violation(c, "waiter-returns-without-matching-request:parked-waiter", fmt.Sprint(e), nil)
+			return
+		case <-time.After(ev.OpTimeout()):
+			r.Violation(c, "operation-does-not-complete:beside-a-parked-waiter", "list / sign / forward / lock / unlock on a shim with one client parked in Wait(31) did not all return; goroutines inside the repository:\n"+ev.RepoStacks(2000), nil)
+			s.Broadcast(31)
+			return
+		}
+		s.Broadcast(31)
+		select {
+		case <-released:
+		case <-time.After(ev.OpTimeout()):
+			r.Violation(c, "operation-does-not-complete:wait/broadcast", "the parked waiter was not released by a request with its code", nil)
+			return
+		}
+		r.Count("operations completed beside a parked waiter, which was then released", 5)
+		r.Nontrivial("parked-waiter")
+	})
+}
